@@ -119,7 +119,7 @@ impl<T> Vec<T> {
                 .buckets
                 .get_unchecked(location.bucket as usize)
                 .entries
-                .load(Ordering::Relaxed);
+                .load(Ordering::Acquire);
 
             // bucket is uninitialized
             if entries.is_null() {
@@ -374,7 +374,7 @@ impl<'v, T> Iterator for Iter<'v, T> {
                     .buckets
                     .get_unchecked(self.location.bucket as usize)
                     .entries
-                    .load(Ordering::Relaxed)
+                    .load(Ordering::Acquire)
             };
             debug_assert!(self.location.bucket < BUCKETS);
 
